@@ -6,7 +6,11 @@ sendPacket(messageType, payload) appends to a per-direction FIFO; the tape
 chooses which direction delivers its next message (peer.packetReceived) and
 how application operations (open / write / writeExtended / writeSequence /
 loseConnection / manual adjustWindow) interleave with deliveries, across
-several channels with window sizes and packet limits from 1 byte up.
+several channels with window sizes and packet limits from 1 byte up.  The
+channel applications' hooks call back into their channel: dataReceived echoes,
+startWriting() writes or hangs up, and stopWriting() - which runs in the middle
+of the write (or of the replay of buffered data) that exhausted the window -
+hangs up gracefully (loseConnection()) or writes once more.
 
 Oracle: models/ssh_channel_ledger.py, an independent window ledger fed from
 the message log (at send and at delivery) plus what the applications wrote:
@@ -19,6 +23,8 @@ the message log (at send and at delivery) plus what the applications wrote:
       unsent only while the known window is exhausted ("delivered once enough window
       is granted")
   close-before-flush                    CHANNEL_CLOSE only when nothing written is unsent
+  close-never-sent                      after every operation: a close the application asked for is on the wire once
+      nothing it wrote is unsent (the request is noted, not forgotten)
   receiver-refused                      every data message from a peer that respects the
       window is handed to the application (never answered by closing / dropped)
   receiver-replenishes                  with everything delivered, an open receiver does
@@ -45,16 +51,28 @@ COMPONENTS = {"real": ["twisted.conch.ssh.channel.SSHChannel.write/writeExtended
                        "twisted.conch.ssh.connection.SSHConnection (openChannel, ssh_CHANNEL_OPEN/_CONFIRMATION/_DATA/_EXTENDED_DATA/_WINDOW_ADJUST/_CLOSE, adjustWindow, sendData, sendExtendedData, sendClose)",
                        "twisted.conch.ssh.service.SSHService.packetReceived"],
               "stub": ["SSH transport layer: MsgTransport.sendPacket enqueues whole messages on a reliable per-direction FIFO; the tape picks the direction that delivers next",
-                       "channel applications (record callbacks; optionally write from startWriting / echo from dataReceived)"]}
+                       "channel applications (record callbacks; optionally echo from dataReceived, write or loseConnection() from startWriting, "
+                       "loseConnection() or write from stopWriting)"]}
 RULE = ("run = 1-3 channels opened by either side with tape-chosen local window (1..64) and maximum packet (1..64) on both ends, then up to ~60 tape-chosen steps "
         "(write / writeExtended with 1-3 extended types / writeSequence / loseConnection with data buffered / manual adjustWindow / deliver next message A->B or B->A), then a drain; "
+        "in half of the runs the applications' stopWriting() hook calls back into the stalling channel (loseConnection(), or one more write; per-call coin) - always from inside "
+        "the application's own write with data of the same kind, and per run (40% each of the runs with a hook) also hanging up while buffered data is being replayed, writing data "
+        "of the OTHER kind than the write that stalled, writing while buffered data is being replayed; in 10% startWriting() hangs up instead of writing; "
         "non-trivial = some write had to be buffered for lack of window AND a later WINDOW_ADJUST delivery flushed buffered bytes")
-ASSUMPTIONS = ["the application does not write to a channel after calling loseConnection on it or after closeReceived",
+ASSUMPTIONS = ["the application does not write to a channel after calling loseConnection on it or after closeReceived (a write already in progress "
+               "when its stopWriting() hook hangs up was issued before)",
+               "a requested close is owed: the statement's 'a requested close is sent only after all buffered data has been sent' is read as 'is sent, and "
+               "only after' (loseConnection: 'note the request'), so a channel that has sent everything and never sends the CLOSE its application asked for fails",
+               "hooks are called synchronously and may call any channel method (stopWriting's hint 'can be ignored': writing from it is legal); the tree as found "
+               "violated the statement for three such call-backs from stopWriting() (FINDINGS 3-5), repaired in /repo 220f069, 1d9adb0, b23aa03",
                "the transport below delivers whole messages reliably and in order per direction",
                "normal data and each extended data type are separate streams: order is required within a stream, not between streams"]
 LEVEL_NOTE = ("seeded search over operation/delivery interleavings, not enumeration; windows and packet limits from {1,2,3,4,5,8,16,64} x {1,2,3,4,7,16,64}. "
               "3% of runs admit a 1-byte window and 4% allow loseConnection() with two buffered extended-data entries: the only families that reach the two "
-              "defects listed in FINDINGS; all other runs avoid those preconditions so the remaining clauses are checked on full-length runs.")
+              "defects listed in FINDINGS; all other runs avoid those preconditions so the remaining clauses are checked on full-length runs. "
+              "Three sub-families of the stopWriting() hook (each ~13% of runs: hang up while buffered data is being replayed, write data of the OTHER kind "
+              "than the write that stalled, write while buffered data is being replayed) are the only ones that reached FINDINGS 3-5 (repaired in /repo: 220f069, "
+              "1d9adb0, b23aa03); they are ordinary families now, and violations after such a hook action carry an `after-stopWriting-...` witness of their own.")
 
 WINDOWS = [8, 2, 3, 4, 5, 16, 64, 1]
 MAXPKTS = [64, 1, 2, 3, 4, 7, 16]
@@ -171,10 +189,17 @@ class World:
         self.reentrant_budget = 8              # writes issued from inside callbacks (keeps echo ping-pong finite)
         self.cur_write = []                    # stack of (index, side, kind) of application write calls in progress
         self.lose_origin = {}                  # (index, side) -> where the application called loseConnection() ("app" / hook name)
+        self.hunt_tag = None                   # last stopWriting() action outside the application's own same-kind write that fired in this run (signature grouping only)
 
     # ---- oracle plumbing
     def fail(self, clause, witness, detail):
-        self.sim.check(clause, False, witness, detail)
+        self.sim.check(clause, False, self.tagged(witness), detail)
+
+    def tagged(self, witness):
+        """Signature grouping only: a run in which a stopWriting() hook has acted during a replay of buffered data, or has
+        written data of the other kind (the three sub-families that found FINDINGS 3-5), reports under a witness of its own,
+        so that a regression there is named and never shares a signature with the plain one."""
+        return witness if self.hunt_tag is None else "after-%s,%s" % (self.hunt_tag, witness)
 
     # ---- wire
     def send(self, side, mtype, payload):
@@ -336,7 +361,7 @@ class World:
         sender = L.other(chan.side)
         h = self.ledger.pair_of(sender, self.chans[chan.index][sender].id).half[sender]
         w = h.written.get(stream, b"")
-        self.sim.check("delivered-in-order", bytes(w[off:off + len(data)]) == data, "data" if stream == "data" else "ext",
+        self.sim.check("delivered-in-order", bytes(w[off:off + len(data)]) == data, self.tagged("data" if stream == "data" else "ext"),
                        lambda: "application %s received %r at offset %d of %s on channel %d; written there: %r"
                                % (chan.side, data[:24], off, stream, chan.index, bytes(w[off:off + 24])))
         # echo-style application: answer from inside the callback
@@ -355,23 +380,25 @@ class World:
             return
         if not self.sim.draw_bool(0.5, "onstop"):
             return
-        # Workload shaping only (what a real application knows: which of its own write calls, if any, it is inside of).
+        # Workload shaping only (what a real application knows: which of its own write calls, if any, it is inside of): per-run
+        # knobs decide whether the hook also acts while buffered data is being replayed, and whether it writes the other kind.
         mine = [k for (i, s, k) in self.cur_write if (i, s) == (chan.index, chan.side)]
         direct = mine[-1] if mine else None         # None: the stall is a replay of buffered data (addWindowBytes)
         act = mode if mode != "either" else self.sim.draw_choice(["lose", "write"], "onstop_act")
         if act == "lose":
-            if direct is None and not self.cfg.get("hunt_hook_lose_in_replay"):
+            if direct is None and not self.cfg.get("hook_lose_in_replay"):
                 return
             self.reentrant_budget -= 1
             self.sim.fault("lose_from_stopWriting")
             if direct is None:
                 self.sim.probe("lose_from_stopWriting_in_replay")
+                self.hunt_tag = "stopWriting-lose-in-replay"
             self.app_lose(chan.index, chan.side, origin="stopWriting")
             return
         kinds = [direct] if direct else []
-        if direct is None and self.cfg.get("hunt_hook_write_in_replay"):
+        if direct is None and self.cfg.get("hook_write_in_replay"):
             kinds = ["data", "ext"]
-        elif direct and self.cfg.get("hunt_hook_write_other_kind"):
+        elif direct and self.cfg.get("hook_write_other_kind"):
             kinds = [direct, "ext" if direct == "data" else "data"]
         if not kinds:
             return
@@ -380,8 +407,10 @@ class World:
         self.sim.fault("write_from_stopWriting")
         if direct is None:
             self.sim.probe("write_from_stopWriting_in_replay")
+            self.hunt_tag = "stopWriting-write-in-replay"
         elif kind != direct:
             self.sim.probe("write_from_stopWriting_other_kind")
+            self.hunt_tag = "stopWriting-write-other-kind"
         if kind == "ext":
             self.app_write(chan.index, chan.side, "writeExtended", "ext%d" % self.sim.draw_choice(self.cfg["ext_types"], "onstop_etype"), self.sim.draw_int(0, 4, "len"))
         else:
@@ -412,7 +441,7 @@ class World:
                     continue
                 pend = h.pending()
                 if pend > 0 and h.window_known() > 0 and not h.close_sent:
-                    sim.check("stalled-with-window", False, "+".join(h.pending_kinds()),
+                    sim.check("stalled-with-window", False, self.tagged("+".join(h.pending_kinds())),
                               "%s holds %d unsent bytes (%r) on channel %r although %d bytes of window are known to it (ctx %s)"
                               % (x, pend, h.pending_streams(), p.key, h.window_known(), self.ctx))
                 # "a requested close is sent ... after all buffered data has been sent": once nothing the application wrote is
@@ -420,7 +449,7 @@ class World:
                 if h.close_requested and pend == 0 and not h.close_sent:
                     key = [i for i, lc in enumerate(self.chans) if lc[x] is not None and lc[x].id == p.ids.get(x)]
                     origin = self.lose_origin.get((key[0], x), "app") if key else "app"
-                    sim.check("close-never-sent", False, "requested-from=" + origin,
+                    sim.check("close-never-sent", False, self.tagged("requested-from=" + origin),
                               "%s asked to close channel %r (loseConnection() called from %s); everything written has been sent, "
                               "yet no CHANNEL_CLOSE has been sent by the end of this operation (ctx %s)" % (x, p.key, origin, self.ctx))
         for s in "AB":
@@ -454,9 +483,11 @@ def run(sim):
              # application hooks that call back into their channel (first item = plain hooks)
              "on_stop": sim.draw_choice([None, None, "lose", None, "write", "either"], "on_stop"),
              "lose_on_start": sim.draw_bool(0.1, "lose_on_start"),
-             "hunt_hook_lose_in_replay": sim.draw_bool(0.0, "hunt_hook_lose_in_replay"),
-             "hunt_hook_write_other_kind": sim.draw_bool(0.0, "hunt_hook_write_other_kind"),
-             "hunt_hook_write_in_replay": sim.draw_bool(0.0, "hunt_hook_write_in_replay")}
+             # where a stopWriting() hook acts besides inside the application's own write of the same kind (each in 40% of the
+             # runs with a hook: the majority of runs stays without them, so everything else is exercised undisturbed)
+             "hook_lose_in_replay": sim.draw_bool(0.4, "hook_lose_in_replay"),
+             "hook_write_other_kind": sim.draw_bool(0.4, "hook_write_other_kind"),
+             "hook_write_in_replay": sim.draw_bool(0.4, "hook_write_in_replay")}
     sim.config = dict(w.cfg)
     nsteps = sim.draw_int(8, 70 * sim.depth, "nsteps")
     opened = 0
@@ -558,8 +589,11 @@ def run(sim):
 
 
 # Defects this check found on the unchanged tree (twisted 24.7.0.post0).  Each has its own stable signature; the
-# witness_tape values are replay tapes for THIS version of run() (any change to the order of draws invalidates them).  The
-# two families `hunt_close_ext` (4% of runs) and `allow_window_1` (3%) are the only ones that can reach them.
+# witness_tape values are replay tapes for one version of run() (any change to the order of draws invalidates them: the tapes of
+# the first two entries predate the hook families; those of entries 3-5 are for THIS version).  All five are repaired in /repo
+# (entry 1: 4407136, entry 2: 'fix: SSH connection replenishes a one-byte channel window', entries 3-5: 220f069, 1d9adb0, b23aa03),
+# so none of the tapes violates any more.  The two families `hunt_close_ext` (4% of runs) and `allow_window_1` (3%) are the only
+# ones that can reach the first two, the three `hook_*` sub-families of the stopWriting() hook the only ones that reach entries 3-5.
 FINDINGS = [
     {"signature": "C36:close-before-flush:unsent=ext,in=WINDOW_ADJUST",
      "what": "SSHChannel.addWindowBytes empties self.extBuf into a local list and replays it through writeExtended(); with a close pending, "
@@ -571,6 +605,34 @@ FINDINGS = [
      "what": "SSHConnection.ssh_CHANNEL_DATA / ssh_CHANNEL_EXTENDED_DATA replenish only when localWindowLeft < localWindowSize // 2; for "
              "localWindowSize == 1 that is `0 < 0`, so a channel with a 1-byte window never sends WINDOW_ADJUST and its peer is starved after the first byte.",
      "witness_tape": [0, 0, 1, 0, 0, 0, 0, 0, 0, 0, 0, 7, 0, 0, 0, 0, 1, 2]},
+    {"signature": "C36:close-never-sent:after-stopWriting-lose-in-replay,requested-from=stopWriting",
+     "knob": "hook_lose_in_replay", "status": "repaired in /repo 220f069 (fix: SSHChannel.addWindowBytes keeps a close requested while it replays extended data)",
+     "what": "SSHChannel.addWindowBytes held a pending close back while it replays extBuf (`closing, self.closing = self.closing, False ... finally: "
+             "self.closing = closing`, added by the /repo commit 'fix: SSHChannel sends buffered extended data of every type before a pending close'). "
+             "If a replayed writeExtended() runs out of window again it calls stopWriting(); an application that calls loseConnection() from that hook sets "
+             "self.closing = 1, which the `finally` overwrites with the saved 0: the request is forgotten, the data is delivered later but CHANNEL_CLOSE is "
+             "never sent (and startWriting() is called again on a channel its application has closed).  Stand-alone: remoteWindow=2; writeExtended(1, b'abcdef'); "
+             "addWindowBytes(2) with stopWriting() calling loseConnection(); addWindowBytes(10) -> EXT 'ab','cd','ef', no CLOSE, closing == 0.  "
+             "Repair: `finally: closing = self.closing = closing or self.closing`.",
+     "witness_tape": [0, 0, 0, 0, 0, 2, 0, 0, 0, 2, 0, 1, 0, 0, 0, 0, 0, 0, 0, 0, 0, 0, 0, 2, 0, 1, 7, 0, 0, 0, 1, 0, 0]},
+    {"signature": "C36:exceeds-window:after-stopWriting-write-other-kind,*  (also stream-order:after-stopWriting-write-other-kind,data; the same inside a replay: after-stopWriting-write-in-replay,*)",
+     "knob": "hook_write_other_kind", "status": "repaired in /repo 1d9adb0 (fix: SSHChannel calls stopWriting() only after charging the window for what it sent)",
+     "what": "write() and writeExtended() called stopWriting() after splitting off what has to wait but BEFORE sending the head and charging it to "
+             "remoteWindowLeft.  A hook that writes data of the other kind (writeExtended from write's hook or vice versa) finds the other buffer empty and the "
+             "whole window apparently free, sends, and the outer call then sends its head as well: more bytes than the peer's window on the wire.  In write() "
+             "`top = self.remoteWindowLeft` is re-read after the hook, so with a small remoteMaxPacket the last bytes of the head are silently dropped instead "
+             "(stream-order:data).  Stand-alone: remoteWindow=3; stopWriting() does writeExtended(1, b'!'); write(b'abcde') -> EXT '!', DATA 'abc' = 4 bytes into a "
+             "3-byte window.  Repair: the hook (`self.areWriting = 0; self.stopWriting()`) is called after the head has been sent and the window charged.",
+     "witness_tape": [0, 0, 0, 0, 0, 0, 0, 0, 0, 4, 0, 0, 1, 0, 0, 0, 0, 0, 0, 0, 0, 0, 0, 1, 0, 12, 1, 1, 1]},
+    {"signature": "C36:stream-order:after-stopWriting-write-in-replay,ext",
+     "knob": "hook_write_in_replay", "status": "repaired in /repo b23aa03 (fix: SSHChannel.addWindowBytes puts unreplayed extended data back before calling stopWriting())",
+     "what": "SSHChannel.addWindowBytes detached extBuf and replayed the entries one by one through writeExtended().  When the first entry runs out of window "
+             "again, stopWriting() runs while the entries not yet replayed are in neither buffer; a writeExtended() from the hook is queued right behind the "
+             "stalled remainder and the older entries are appended behind IT: bytes of one extended stream overtake older ones.  Stand-alone: remoteWindow=0; "
+             "writeExtended(1, b'abc'); writeExtended(2, b'Z'); addWindowBytes(2) with stopWriting() doing writeExtended(2, b'Y'); addWindowBytes(10) -> "
+             "EXT1 'ab','c', EXT2 'YZ' (written: Z then Y).  Repair: in the replay loop, when an entry does not fit, what fits is sent, "
+             "`[[type, rest]] + entries not yet replayed` is put back into self.extBuf and only then stopWriting() is called.",
+     "witness_tape": [0, 0, 1, 0, 0, 2, 0, 0, 0, 4, 0, 0, 0, 1, 0, 0, 0, 0, 0, 0, 0, 0, 0, 2, 0, 1, 7, 0, 0, 2, 0, 0, 1, 1, 0, 0, 1, 1, 1, 1]},
 ]
 
 MUTANTS = [
@@ -587,5 +649,12 @@ MUTANTS = [
     "connection.py ssh_CHANNEL_DATA: `channel.localWindowLeft -= dataLength` -> `-= dataLength + 1` -> caught (receiver-refused:data)",
     "connection.py adjustWindow: drop `channel.localWindowLeft += bytesToAdd` -> caught (receiver-refused:data)",
     "connection.py ssh_CHANNEL_EXTENDED_DATA: replenish test -> `localWindowLeft < 0` (never replenishes) -> caught (receiver-replenishes:localWindow>1)",
+    "channel.py writeExtended: `self.areWriting = 0; self.stopWriting()` moved above the split into head / extBuf remainder (hook sees empty buffers) -> caught "
+    "(close-before-flush:unsent=ext,in=app-ext; stream-order:ext; stalled-with-window:ext) by loseConnection()/writeExtended() issued from stopWriting()",
+    "channel.py write: same move in write() -> caught (close-before-flush:unsent=data,in=app-write / in=WINDOW_ADJUST; stream-order:data)",
+    "channel.py loseConnection: `self.closing = 1` only when the buffers are empty (request not noted while data is buffered) -> caught "
+    "(close-never-sent:requested-from=app / startWriting / stopWriting)",
+    "the three repairs of FINDINGS 3-5 reverted one at a time (/repo 220f069, 1d9adb0, b23aa03) -> each caught under its own tagged signature "
+    "(close-never-sent:after-stopWriting-lose-in-replay,...; exceeds-window:after-stopWriting-write-other-kind,...; stream-order:after-stopWriting-write-in-replay,ext)",
     "candidate FIXES applied together (addWindowBytes replays extBuf with closing suspended then calls loseConnection(); replenish test `< max(localWindowSize // 2, 1)`) -> check passes, 16000 runs, exit 0",
 ]
